@@ -550,10 +550,25 @@ func (a *plAnalysis) checkC04(expectSynthetic map[string]bool) {
 		}
 	}
 	for k := range expectSynthetic {
+		if count[k] == 0 && r.noCheckpointAnywhere() {
+			// (own signature: without any position the handler has nothing to stamp the message with - a TODO in AddCollection)
+			a.v("C04/missing-synthetic-drop/no-checkpoint", "object %s was dropped upstream while CDC was down and still exists downstream, but no drop request was issued after restart: neither it nor any collection sharing its channels was started from a checkpoint", k)
+			continue
+		}
 		if count[k] == 0 {
 			a.v("C04/missing-synthetic-drop", "object %s was dropped upstream while CDC was down and still exists downstream, but no drop request was issued after restart", k)
 		}
 	}
+}
+
+// noCheckpointAnywhere: no collection of the scenario is started from a seek position
+func (r *plRun) noCheckpointAnywhere() bool {
+	for _, c := range r.sc.Colls {
+		if c.SeekMs != 0 {
+			return false
+		}
+	}
+	return true
 }
 
 func (r *plRun) stopped(c *plColl) bool {
